@@ -205,7 +205,7 @@ pub fn run(tier: Tier) -> i32 {
     let mut rep = Report::new("C05", tier, "exploration");
     let (c1, c2) = (c1s(), c2s());
     let ds = docs(tier);
-    rep.set("rule", json!(format!("Documents with a root <svg>: every single item, every ordered pair{} of {} output-producing items (generated text with special characters/quotes/multi-line/pre-formatted/unicode, _ and __ comments, classes that emit style CDATA and defs, author <style>/<defs>/CDATA, groups with transforms, reuse, loops, foreign-namespace attributes, tail text/blank lines/CRLF/tabs, source comments with entities, text content, tspans, nested namespaced and plain <svg>, PIs, connectors, surround, point/box, variables with specials, links, paths, vertical text) under 4 prolog forms and root-attribute variants, plus the repository's examples/*.xml. For each document x and each of {} first configurations c1: if T_c1(x) is Ok(y) then for each of {} second configurations c2, T_c2(y) must be Ok and byte-identical to y (alternating transform_stream / transform_str). Non-trivial = at least one c1 gave Ok.", if tier == Tier::Thorough { " and every unordered triple" } else { "" }, ITEMS.len(), c1.len(), c2.len())));
+    rep.set("rule", json!(format!("Documents with a root <svg>: every single item, every ordered pair{} of {} output-producing items (generated text with special characters/quotes/multi-line/pre-formatted/unicode, _ and __ comments, classes that emit style CDATA and defs, author <style>/<defs>/CDATA, groups with transforms, reuse, loops, foreign-namespace attributes, tail text/blank lines/CRLF/tabs, source comments with entities, text content, tspans, nested namespaced and plain <svg>, PIs, connectors, surround, point/box, variables with specials, links, paths, vertical text) under 4 prolog forms and root-attribute variants, plus the repository's examples/*.xml, real-SVG documents, odd spellings (namespace written with character references / single quotes / blanks, U+FEFF as content before the root and in text) and four ill-formed inputs the reader accepts. For each document x and each of {} first configurations c1: if T_c1(x) is Ok(y) then for each of {} second configurations c2, T_c2(y) must be Ok and byte-identical to y (alternating transform_stream / transform_str). Non-trivial = at least one c1 gave Ok.", if tier == Tier::Thorough { " and every unordered triple" } else { "" }, ITEMS.len(), c1.len(), c2.len())));
     let st = run_space(ds.len(), |i| check(&ds[i], "items", &c1, &c2));
     rep.sample(json!({"leg": "items", "doc": ds[ds.len() / 2]}));
     rep.sample(json!({"leg": "items", "doc": ds[7]}));
@@ -225,6 +225,42 @@ pub fn run(tier: Tier) -> i32 {
     ];
     let st = run_space(real.len(), |i| check(&real[i], "real-svg", &c1, &c2));
     rep.absorb("real-svg", st);
+    // second review round: spellings of the namespace, characters which the reader treats specially
+    let odd: Vec<String> = vec![
+        "<svg xmlns=\"http://www.w3.org/2000/sv&#103;\"><rect wh=\"5\"/></svg>".into(),
+        "<svg xmlns=\"http://www.w3.org/2000/sv&#x67;\" width=\"10\"><rect width=\"5\" height=\"5\"/></svg>".into(),
+        "<svg xmlns='http://www.w3.org/2000/svg'><rect width='5' height='5'/></svg>".into(),
+        "<svg  xmlns = \"http://www.w3.org/2000/svg\" ><rect width=\"5\" height=\"5\"/></svg>".into(),
+        "<svg><svg xmlns=\"http://www.w3.org/2000/sv&#103;\"><rect width=\"5\" height=\"5\"/></svg><rect wh=\"3\"/></svg>".into(),
+        "&#xFEFF;<svg><rect wh=\"5\"/></svg>".into(),
+        "<?xml version=\"1.0\"?>\u{FEFF}<svg><rect wh=\"5\"/></svg>".into(),
+        format!("{}{}<svg xmlns=\"{ns}\"><rect width=\"5\" height=\"5\"/></svg>", '\u{FEFF}', '\u{FEFF}'),
+        "<svg><rect wh=\"5\" text=\"a&#xFEFF;b\"/></svg>".into(),
+    ];
+    let st = run_space(odd.len(), |i| {
+        let mut r = check(&odd[i], "odd-spellings", &c1, &c2);
+        if let Some(v) = r.violation.as_mut() {
+            v.signature = format!("C05/odd-spellings/{}/{i}", if v.clause == "reprocessing-fails" { "fails" } else { "changed" });
+        }
+        r
+    });
+    rep.absorb("odd-spellings", st);
+    // input which is not well-formed XML but is accepted (see the C02 finding on lenient input): the output
+    // inherits the defect and the second pass reads it differently
+    let lenient: Vec<&str> = vec![
+        "<svg><rect wh=\"5\" k\"=\"&gt;\" j\"=\"\"/></svg>",
+        "<svg><rect wh=\"5\" k'=\"&apos;\" j'=\"\"/></svg>",
+        "<svg><a/ ></a/></svg>",
+        "<svg>< /></svg>",
+    ];
+    let st = run_space(lenient.len(), |i| {
+        let mut r = check(lenient[i], "lenient-input", &c1, &c2);
+        if let Some(v) = r.violation.as_mut() {
+            v.signature = format!("C05/lenient-input/{i}");
+        }
+        r
+    });
+    rep.absorb("lenient-input", st);
     rep.assume("the first-pass output under use_local_styles carries a random root id; the relation is checked on the output actually obtained, so no cross-run comparison is involved");
     rep.finish()
 }
